@@ -37,10 +37,54 @@ CONVERTED = []
 class TemplateEval:
     """expression -> list of ('lit', text) | ('hole', shape) | ('trusted', what)"""
 
-    def __init__(self, ix, mod, fn, roles, lenient=False):
-        self.ix, self.mod, self.fn, self.roles = ix, mod, fn, roles      # roles: name -> ('value', kind) | ('key',) | pieces
+    def __init__(self, ix, mod, fn, roles, lenient=False, scope=None):
+        self.ix, self.mod, self.fn, self.roles = ix, mod, fn, roles      # roles: name -> ('value', kind) | ('key',) | ('array', kind) | ('row', kind) | pieces
         self.lenient = lenient        # an expression the evaluator does not understand becomes a hole of arbitrary text (over-approximation)
         self.approx = []
+        self.scope = scope            # statements in which locals of the expression are bound (text built up before it is written)
+
+    def sub(self, extra):
+        t = TemplateEval(self.ix, self.mod, self.fn, dict(self.roles, **extra), self.lenient, self.scope)
+        t.approx = self.approx
+        return t
+
+    def element_role(self, it):
+        """role of the loop variable of `for x in <it>`: a row of an array, an element of a row"""
+        if isinstance(it, ast.Name) and isinstance(self.roles.get(it.id), tuple):
+            r = self.roles[it.id]
+            if r[0] == "array":
+                return ("row", r[1])
+            if r[0] == "row":
+                return ("value", r[1])
+        return None
+
+    def repeated(self, comp, sep):
+        """pieces of sep.join(<elt> for x in <rows / elements>): the element text, repeated with the separator in between (one or more times)"""
+        if not isinstance(comp, (ast.GeneratorExp, ast.ListComp)) or len(comp.generators) != 1 or comp.generators[0].ifs or not isinstance(comp.generators[0].target, ast.Name):
+            return None
+        role = self.element_role(comp.generators[0].iter)
+        if role is None:
+            return None
+        elt = self.sub({comp.generators[0].target.id: role}).ev(comp.elt)
+        return [("rep", elt, [("lit", sep)] if sep else [])]
+
+    def local_text(self, name):
+        """text a local holds when the expression is evaluated: bound once to an expression / a comprehension in scope, or accumulated
+        (`s = ''` ... `for x in rows: s += <piece>`)"""
+        if self.scope is None:
+            return None
+        binds = [n for st in self.scope for n in ast.walk(st) if isinstance(n, (ast.Assign, ast.AugAssign)) and any(
+            isinstance(t_, ast.Name) and t_.id == name for t_ in (n.targets if isinstance(n, ast.Assign) else [n.target]))]
+        if len(binds) == 1 and isinstance(binds[0], ast.Assign):
+            return ("expr", binds[0].value)
+        if len(binds) == 2 and isinstance(binds[0], ast.Assign) and isinstance(binds[0].value, ast.Constant) and binds[0].value.value == "" and isinstance(binds[1], ast.AugAssign) \
+                and isinstance(binds[1].op, ast.Add):
+            loops = [l for st in self.scope for l in ast.walk(st) if isinstance(l, ast.For) and binds[1] in l.body and isinstance(l.target, ast.Name)]
+            if len(loops) == 1:
+                role = self.element_role(loops[0].iter)
+                if role is not None:
+                    return ("pieces", [("rep", self.sub({loops[0].target.id: role}).ev(binds[1].value), [])])
+        return None
 
     def ev(self, e):
         from ..py import norm
@@ -56,6 +100,27 @@ class TemplateEval:
                 return [x for x in out if x != ("lit", "")]
         if isinstance(e, ast.Name) and e.id in self.roles and isinstance(self.roles[e.id], tuple) and self.roles[e.id][0] == "alias":
             return self.ev(self.roles[e.id][1])
+        # sep.join(<comprehension over the rows / the elements of a row>)  and  ''.join(e + sep ...)[:-len(sep)]
+        if isinstance(e, ast.Call) and isinstance(e.func, ast.Attribute) and e.func.attr == "join" and isinstance(e.func.value, ast.Constant) and isinstance(e.func.value.value, str) and len(e.args) == 1:
+            arg = e.args[0]
+            if isinstance(arg, ast.Name) and arg.id not in self.roles:
+                lt = self.local_text(arg.id)
+                arg = lt[1] if lt is not None and lt[0] == "expr" else arg
+            r = self.repeated(arg, e.func.value.value)
+            if r is not None:
+                return r
+        if isinstance(e, ast.Subscript) and isinstance(e.slice, ast.Slice) and e.slice.lower is None and e.slice.step is None and isinstance(e.slice.upper, ast.UnaryOp) \
+                and isinstance(e.slice.upper.op, ast.USub) and isinstance(e.slice.upper.operand, ast.Constant) and isinstance(e.slice.upper.operand.value, int):
+            n_ = e.slice.upper.operand.value
+            inner = self.ev(e.value)
+            if len(inner) == 1 and inner[0][0] == "rep" and not inner[0][2] and inner[0][1] and inner[0][1][-1][0] == "lit" and len(inner[0][1][-1][1]) == n_:
+                # every element ends with the same n characters and the last n are cut: those characters separate the elements
+                return [("rep", [p_ for p_ in inner[0][1][:-1]], [inner[0][1][-1]])]
+            raise Inconclusive("template: slice `%s`" % " ".join(u(e).split())[:60])
+        if isinstance(e, ast.Name) and e.id not in self.roles:
+            lt = self.local_text(e.id)
+            if lt is not None:
+                return self.ev(lt[1]) if lt[0] == "expr" else list(lt[1])
         if isinstance(e, ast.Name):
             r = self.roles.get(e.id)
             if r is None:
@@ -307,18 +372,23 @@ def find_slots(ix):
             continue
         # ... or the loop variable is rebound before the dispatch
         tv = [x.id for x in ast.walk(l.target) if isinstance(x, ast.Name)]
-        if any(x in it for x in ("op['args']", "op['kwargs'].items()", "data['options'].items()")):
+        if any(x in it for x in ("op['args']", "op['kwargs'].items()", "['options'].items()")):
             for s_ in l.body:
                 if isinstance(s_, ast.If):
                     break
                 if isinstance(s_, ast.Assign) and any(isinstance(t_, ast.Name) and t_.id in tv for t_ in s_.targets):
                     CONVERTED.append((f, s_, " ".join(u(s_).split())[:60]))
+        def colls(default):
+            # the lists this loop appends to (the code's own names), e.g. args / kwargs / option_strings
+            got = {u(c.func.value) for c in ast.walk(l) if isinstance(c, ast.Call) and isinstance(c.func, ast.Attribute) and c.func.attr == "append" and isinstance(c.func.value, ast.Name)
+                   and c.func.value.id != "script"}
+            return tuple(sorted(got)) if len(got) == 1 else default
         if it in ("op['args']", 'op["args"]'):
             slots.append(Slot("positional argument", f, l, u(l.target), None, ("args",), False))
         elif it in ("op['kwargs'].items()", 'op["kwargs"].items()'):
             slots.append(Slot("keyword argument", f, l, u(l.target.elts[1]), u(l.target.elts[0]), ("kwargs",), True))
-        elif it in ("data['options'].items()", 'data["options"].items()'):
-            slots.append(Slot("metadata option", f, l, u(l.target.elts[1]), u(l.target.elts[0]), ("option_strings",), True))
+        elif re.fullmatch(r"\w+\[['\"]options['\"]\]\.items\(\)", it) and isinstance(l.target, ast.Tuple) and len(l.target.elts) == 2:
+            slots.append(Slot("metadata option", f, l, u(l.target.elts[1]), u(l.target.elts[0]), colls(("option_strings",)), True))
     g = ix.func("program.list_to_blackbird")
     rebound = [n for n in ast.walk(g.node) if isinstance(n, (ast.Assign, ast.AugAssign)) and any(isinstance(x, ast.Name) and x.id == g.params[0] and isinstance(x.ctx, ast.Store) for x in ast.walk(n))]
     for l in walk_shallow(g.node):
@@ -429,6 +499,8 @@ def show_pieces(pieces):
             out.append(p_[1])
         elif p_[0] == "alt":
             out.append("(" + " | ".join(show_pieces(a) for a in p_[1]) + ")")
+        elif p_[0] == "rep":
+            out.append("(%s)(%s ...)*" % (show_pieces(p_[1]), show_pieces(p_[2])))
         else:
             out.append("<%s>" % (p_[1],))
     return "".join(out)
@@ -611,21 +683,36 @@ def structure(rep, R, ix, M):
     from ..py import norm
     ok = len(inits) == 1 and [norm.canon_text(e) for e in inits[0].value.elts] == ["%s {self.name}" % want["name"], "%s {self.version}" % want["version"]]
     rep.check(ok, R, ix.site(f, inits[0]) if inits else ix.site(f), "the script starts with '%s <name>' and '%s <version>' (the grammar's keywords)" % (want["name"], want["version"]), key="meta|head")
-    loops = [n for n in fn.body if isinstance(n, ast.For) and isinstance(n.iter, ast.List) and all(isinstance(e, ast.Tuple) for e in n.iter.elts)]
+    loops = [n for n in fn.body if isinstance(n, ast.For) and isinstance(n.iter, (ast.List, ast.Tuple)) and n.iter.elts and all(isinstance(e, ast.Tuple) for e in n.iter.elts)]
     okm = False
     if loops:
         pairs = [(e.elts[0].value if isinstance(e.elts[0], ast.Constant) else None, u(e.elts[1])) for e in loops[0].iter.elts]
         okm = pairs == [(G.literal_of("TARGET"), "self.target"), (G.literal_of("PROGTYPE"), "self.programtype")]
-        line = [n for n in ast.walk(loops[0]) if isinstance(n, ast.Call) and isinstance(n.func, ast.Attribute) and n.func.attr == "append" and u(n.func.value) == "script"]
-        # the line: '<keyword> <name>' followed by the options text - held in a local, or written in place (empty / ' (<k>=<v>, ...)')
-        OPTS = " ({', '.join(option_strings)})"
-        forms = {"{name} {data['name']}{options}", "{name} {data['name']}", "{name} {data['name']}" + OPTS}
-        okm = okm and len(line) >= 1 and all(norm.canon_text(l_.args[0]) in forms for l_ in line) and any(norm.canon_text(l_.args[0]) != "{name} {data['name']}" for l_ in line)
+        # the lines go to the script directly, or to a list that is added to the script as a whole right after the loop
+        sinks = {"script"}
+        nxt = fn.body[fn.body.index(loops[0]) + 1] if fn.body.index(loops[0]) + 1 < len(fn.body) else None
+        if isinstance(nxt, ast.Expr) and isinstance(nxt.value, ast.Call) and u(nxt.value.func) == "script.extend" and len(nxt.value.args) == 1 and isinstance(nxt.value.args[0], ast.Name):
+            acc_ = nxt.value.args[0].id
+            init_ = [n for n in fn.body if isinstance(n, ast.Assign) and u(n.targets[0]) == acc_]
+            if len(init_) == 1 and isinstance(init_[0].value, ast.List) and not init_[0].value.elts and fn.body.index(init_[0]) < fn.body.index(loops[0]):
+                sinks = {acc_}
+        line = [n for n in ast.walk(loops[0]) if isinstance(n, ast.Call) and isinstance(n.func, ast.Attribute) and n.func.attr == "append" and u(n.func.value) in sinks]
+        # the line: '<keyword> <name>' followed by the options text - held in a local, or written in place (empty / ' (<k>=<v>, ...)');
+        # the names of the loop variables and of the locals are the code's own
+        tg = loops[0].target
+        kwv, dv = (tg.elts[0].id, tg.elts[1].id) if isinstance(tg, ast.Tuple) and len(tg.elts) == 2 and all(isinstance(e, ast.Name) for e in tg.elts) else (None, None)
+        OPTS_RE = r" \(\{', '\.join\((?P<coll>\w+)\)\}\)"
+        line_re = re.compile(r"^\{%s\} \{%s\['name'\]\}(?P<rest>|\{(?P<optvar>\w+)\}|%s)$" % (re.escape(kwv or "?"), re.escape(dv or "?"), OPTS_RE))
+        ms = [line_re.match(norm.canon_text(l_.args[0]) or "") for l_ in line]
+        okm = okm and kwv is not None and len(line) >= 1 and all(ms) and any(m_.group("rest") for m_ in ms if m_)
+        optvars = {m_.group("optvar") for m_ in ms if m_ and m_.group("optvar")}
+        optvar = optvars.pop() if len(optvars) == 1 else None
+        okm = okm and not optvars
         # a line that reads the local `options` must get its value in the same iteration: an unconditional (re)binding at the top level of
         # the loop body - or in both branches of an if/else there - precedes it; a binding left over from the previous declaration is not one
         def binds_options(stmts):
             for s_ in stmts:
-                if isinstance(s_, ast.Assign) and any(isinstance(t_, ast.Name) and t_.id == "options" for t_ in s_.targets):
+                if isinstance(s_, ast.Assign) and any(isinstance(t_, ast.Name) and t_.id == optvar for t_ in s_.targets):
                     return True
                 if isinstance(s_, ast.If) and s_.orelse and binds_options(s_.body) and binds_options(s_.orelse):
                     return True
@@ -635,7 +722,7 @@ def structure(rep, R, ix, M):
             """every statement of this block that reads `options` is preceded, in this block or an enclosing one of the loop body, by a binding"""
             bound = False
             for s_ in stmts:
-                reads = any(isinstance(x, ast.Name) and x.id == "options" and isinstance(x.ctx, ast.Load) for x in ast.walk(s_))
+                reads = any(isinstance(x, ast.Name) and x.id == optvar and isinstance(x.ctx, ast.Load) for x in ast.walk(s_))
                 if isinstance(s_, ast.If):
                     if not bound and not (fresh_per_iteration(s_.body) and fresh_per_iteration(s_.orelse)):
                         return False
@@ -643,12 +730,11 @@ def structure(rep, R, ix, M):
                     return False
                 bound = bound or binds_options([s_])
             return True
-        uses_local = any(norm.canon_text(l_.args[0]) == "{name} {data['name']}{options}" for l_ in line)
-        if uses_local:
+        if optvar is not None:
             rep.check(fresh_per_iteration(loops[0].body), R, ix.site(f, loops[0]), "the option text of a metadata line is computed for that line (bound anew in every iteration before it is written)",
-                      "`options` can still hold the text of the previous declaration when the line is written (the type line repeats the target's options)", key="meta|options fresh")
-        opt = [n for n in ast.walk(loops[0]) if isinstance(n, ast.Assign) and u(n.targets[0]) == "options" and isinstance(n.value, ast.Call)]
-        okm = okm and len(opt) <= 1 and all(norm.canon_text(o_.value) == OPTS for o_ in opt) and (bool(opt) or any(norm.canon_text(l_.args[0]).endswith(OPTS) for l_ in line))
+                      "`%s` can still hold the text of the previous declaration when the line is written (the type line repeats the target's options)" % optvar, key="meta|options fresh")
+        opt = [n for n in ast.walk(loops[0]) if isinstance(n, ast.Assign) and optvar is not None and u(n.targets[0]) == optvar and isinstance(n.value, ast.Call)]
+        okm = okm and len(opt) <= 1 and all(re.fullmatch(OPTS_RE, norm.canon_text(o_.value) or "") for o_ in opt) and (bool(opt) or any(m_ and m_.group("coll") for m_ in ms))
     rep.check(okm, R, ix.site(f, loops[0]) if loops else ix.site(f), "target and type lines are '<keyword> <name>[ (<k>=<v>, ...)]' in that order, written only when a name is set", key="meta|target type")
     # statement lines
     lines = [n for n in walk_shallow(fn) if isinstance(n, ast.Call) and isinstance(n.func, ast.Attribute) and n.func.attr == "append" and u(n.func.value) == "script" and "|" in u(n)]
@@ -780,7 +866,12 @@ def arrays(rep, R, ix, M, L):
     # hoisting in serialize
     s = ix.func(SER)
     sn = s.node
+    markers = set()
+    ops_loops = []
     for slot in [x for x in find_slots(ix) if x.name in ("positional argument", "keyword argument")]:
+        for top in sn.body:
+            if isinstance(top, ast.For) and any(x is slot.loop for x in ast.walk(top)) and top not in ops_loops:
+                ops_loops.append(top)
         arms_, chain_ = isinstance_chain(slot.loop.body, slot.var)
         pa_ = possible_arms(arms_, slot.var, "NdArray")
         for body, which, sure in pa_[:-1]:
@@ -819,8 +910,15 @@ def arrays(rep, R, ix, M, L):
         ref_loc_s = ref_loc - {"idx", "line"}
         moved = moved or norm.alpha(list(body), loc) == norm.alpha(rs, ref_loc_s) or fstring_equal(list(body), rs, loc, ref_loc_s) or (
             b2 is not None and rs2 is not None and (norm.alpha(b2, loc) == norm.alpha(rs2, ref_loc_s) or fstring_equal(b2, rs2, loc, ref_loc_s)))
+        sem = (None, None, "")
         if txt and (got_c == want_c or fstring_equal(body, ast.parse(ref).body, loc, ref_loc) or moved):
             rep.ok(R, ix.site(s, chain_), "%s: every array value gets its own declaration A<n>, inserted line by line at the insertion point, which then advances by the number of lines" % slot.name)
+            markers.add("array_insert")
+        elif txt and script_list(sn) and (sem := hoist_semantic(ix, s, slot, list(body), script_list(sn)))[0] is True:
+            rep.ok(R, ix.site(s, chain_), "%s: every array value gets its own declaration A<n>, written under that name; the declaration is %s" % (slot.name, sem[2]))
+            markers.add(sem[1])
+        elif sem[0] is False:
+            rep.bad(R, ix.site(s, chain_), "%s: every array value gets its own declaration A<n>, written under that name and placed whole at the insertion point" % slot.name, sem[2], key="hoist|sem|" + slot.name)
         else:
             alltxt = " ".join(txt)
             reuse = "array_equal" in alltxt or "tobytes" in alltxt or "declared" in alltxt or "cache" in alltxt.lower() or " in " in alltxt and "continue" in alltxt
@@ -835,10 +933,230 @@ def arrays(rep, R, ix, M, L):
     ai = [n for n in sn.body if isinstance(n, ast.Assign) and u(n.targets[0]) == "array_insert"]
     inc = [n for n in ast.walk(sn) if isinstance(n, ast.AugAssign) and u(n.target) == "array_insert"]
     inc_txt = sorted(" ".join(u(n).split()) for n in inc)
-    rep.check(len(ai) == 1 and u(ai[0].value) == "3" and inc_txt == ["array_insert += 1", "array_insert += len(bb_array)", "array_insert += len(bb_array)"], R, ix.site(s),
-              "the insertion point starts after 'name', 'version' and the blank line (3) and moves only by one per metadata line and by the length of each inserted declaration", "got %s" % inc_txt, key="hoist|index")
+    classic = len(ai) == 1 and u(ai[0].value) == "3" and inc_txt == ["array_insert += 1", "array_insert += len(bb_array)", "array_insert += len(bb_array)"]
+    inv = (None, "")
+    if not classic and len(markers) == 1 and len(ops_loops) == 1 and script_list(sn):
+        inv = marker_invariant(sn, ops_loops[0], script_list(sn), next(iter(markers)))
+    if classic or inv[0] is True:
+        rep.ok(R, ix.site(s), "the insertion point is the end of the header (after 'name', 'version', the metadata lines and the blank line) when the first statement is written, and afterwards moves only "
+                              "by the length of each inserted declaration" + ("" if classic else " (%s)" % inv[1]))
+    elif inv[0] is None and not classic and len(markers) == 1 and inv[1]:
+        rep.unknown(R, ix.site(s), "the insertion point is the end of the header when the first statement is written", inv[1])
+    else:
+        rep.bad(R, ix.site(s), "the insertion point starts after 'name', 'version' and the blank line (3) and moves only by one per metadata line and by the length of each inserted declaration",
+                inv[1] or "got %s" % inc_txt, key="hoist|index")
     vc = [n for n in sn.body if isinstance(n, ast.Assign) and u(n.targets[0]) == "var_count"]
     rep.check(len(vc) == 1 and u(vc[0].value) == "0", R, ix.site(s), "declaration names are numbered from 0", key="hoist|count")
+
+
+# ------------------------------------------------------------------------------------------------------------ layout of the hoisted declarations
+def script_list(sn):
+    """name of the list of lines the function joins and returns"""
+    for n in ast.walk(sn):
+        if isinstance(n, ast.Return) and isinstance(n.value, ast.Call) and isinstance(n.value.func, ast.Attribute) and n.value.func.attr == "join" and n.value.args and isinstance(n.value.args[0], ast.Name):
+            return n.value.args[0].id
+    return None
+
+
+def marker_invariant(sn, ops_loop, script, M):
+    """the insertion point M of the hoisted declarations is the end of the header: decided on d = M - len(script), followed through the top-level
+    statements in front of the loop over the operations (every path through a loop body / conditional must change d by the same amount).
+    -> (True, explanation) | (False, why) | (None, why not decided)"""
+    def delta(stmts):
+        """set of possible changes of d on the paths through stmts; None = not expressible; a path ends at continue/break/return/raise"""
+        acc = {0}
+        for s_ in stmts:
+            if isinstance(s_, (ast.Continue, ast.Break, ast.Return, ast.Raise)):
+                return acc
+            ds = step(s_)
+            if ds is None:
+                return None
+            acc = {a + b for a in acc for b in ds}
+        return acc
+
+    def step(s_):
+        txt = " ".join(u(s_).split())
+        if isinstance(s_, ast.Expr) and isinstance(s_.value, ast.Call) and isinstance(s_.value.func, ast.Attribute) and u(s_.value.func.value) == script:
+            a = s_.value.func.attr
+            if a == "append":
+                return {-1}
+            if a == "extend" and s_.value.args and isinstance(s_.value.args[0], (ast.List, ast.Tuple)):
+                return {-len(s_.value.args[0].elts)}
+            return None
+        if isinstance(s_, ast.AugAssign) and u(s_.target) == M:
+            if isinstance(s_.op, ast.Add) and isinstance(s_.value, ast.Constant) and isinstance(s_.value.value, int):
+                return {s_.value.value}
+            return None
+        if isinstance(s_, ast.Assign) and any(M in [x.id for x in ast.walk(t_) if isinstance(x, ast.Name)] or script in [x.id for x in ast.walk(t_) if isinstance(x, ast.Name)] for t_ in s_.targets):
+            return None
+        if isinstance(s_, ast.If):
+            a, b = delta(s_.body), delta(s_.orelse)
+            return None if a is None or b is None else a | b
+        if isinstance(s_, (ast.For, ast.While)):
+            d_ = delta(s_.body)
+            return {0} if d_ == {0} else None
+        if isinstance(s_, ast.Try):
+            return None
+        # anything else must not touch the script or the marker
+        for x in ast.walk(s_):
+            if isinstance(x, ast.Name) and x.id in (script, M) and isinstance(x.ctx, (ast.Store, ast.Del)):
+                return None
+            if isinstance(x, ast.Call) and isinstance(x.func, ast.Attribute) and u(x.func.value) == script and x.func.attr in ("append", "extend", "insert", "pop", "remove", "clear", "sort", "reverse"):
+                return None
+        return {0}
+
+    if ops_loop not in sn.body:
+        return None, "the loop over the operations is not a top-level statement"
+    pre = sn.body[:sn.body.index(ops_loop)]
+    d = None          # unknown
+    known_len, known_m = None, None
+    trace = []
+    varies = None
+    for s_ in pre:
+        touched_m = any(isinstance(x, ast.Name) and x.id == M and isinstance(x.ctx, (ast.Store, ast.Del)) for x in ast.walk(s_))
+        if isinstance(s_, ast.Assign) and len(s_.targets) == 1 and isinstance(s_.targets[0], ast.Name) and s_.targets[0].id in (script, M):
+            t_, v_ = s_.targets[0].id, s_.value
+            if t_ == script and isinstance(v_, (ast.List, ast.Tuple)) and not any(isinstance(e_, ast.Starred) for e_ in v_.elts):
+                known_len = len(v_.elts)
+            elif t_ == M and isinstance(v_, ast.Constant) and isinstance(v_.value, int):
+                known_m = v_.value
+            elif t_ == M and " ".join(u(v_).split()) == "len(%s)" % script:
+                known_m = known_len = None
+                d = 0
+                varies = None
+                trace.append((d, touched_m))
+                continue
+            else:
+                known_m = known_len = None
+                d = None
+                trace.append((d, touched_m))
+                continue
+            d = known_m - known_len if (known_m is not None and known_len is not None) else None
+            trace.append((d, touched_m))
+            continue
+        ds = step(s_)
+        if isinstance(s_, (ast.For, ast.While)):
+            inner = delta(s_.body)
+            if inner is not None and inner != {0}:
+                # some path through the loop body moves the end of the script and the insertion point by different amounts
+                varies = "in `%s` the script and `%s` move apart by %s per iteration, depending on the path taken" % (" ".join(u(s_).split())[:40], M, sorted(inner))
+        if ds is None or len(ds) != 1:
+            d = None
+        elif d is not None:
+            d += next(iter(ds))
+        trace.append((d, touched_m))
+    # the header ends at the first point where M is the end of the script and M is not touched again before the operations
+    for i, (d_i, _) in enumerate(trace):
+        if d_i == 0 and not any(t for _, t in trace[i + 1:]):
+            return True, "`%s` equals len(%s) after `%s`, and is not changed again before the loop over the operations" % (M, script, " ".join(u(pre[i]).split())[:50])
+    if varies:
+        return False, varies
+    final = trace[-1][0] if trace else None
+    if final is not None and final != 0 and not any(d_i is None for d_i, _ in trace[max(0, len(trace) - 1):]):
+        return False, "`%s` is %d line%s %s the end of the header when the first statement line is written" % (M, abs(final), "" if abs(final) == 1 else "s", "past" if final > 0 else "before")
+    return None, "the distance between `%s` and the end of `%s` is not a constant where the operations begin" % (M, script)
+
+
+def hoist_semantic(ix, s, slot, body, script):
+    """the array arm, read for what it does: a fresh name A<counter> (counter advanced once per array), that very name written as the argument,
+    the declaration numpy_to_blackbird(<value>, <name>) put - whole and in order - at the insertion point or collected for one later splice.
+    -> (True, marker name, how) | (None/False, None, why)"""
+    sn = s.node
+    calls = [c for x in body for c in ast.walk(x) if isinstance(c, ast.Call) and u(c.func).endswith("numpy_to_blackbird")]
+    if len(calls) != 1 or len(calls[0].args) != 2 or calls[0].keywords:
+        return None, None, "no single numpy_to_blackbird(<array>, <name>) call in the arm"
+    call = calls[0]
+    if u(call.args[0]) != slot.var:
+        return False, None, "the declaration is built from `%s`, not from the argument value `%s`" % (u(call.args[0]), slot.var)
+    if not isinstance(call.args[1], ast.Name):
+        return None, None, "declaration name is not a local"
+    N = call.args[1].id
+    binds = [x for x in body if isinstance(x, ast.Assign) and len(x.targets) == 1 and isinstance(x.targets[0], ast.Name) and x.targets[0].id == N]
+    if len(binds) != 1:
+        return None, None, "`%s` is not bound exactly once in the arm" % N
+    m = re.fullmatch(r"A\{(\w+)\}", norm.canon_text(binds[0].value) or "")
+    if not m:
+        return False, None, "the declaration name is `%s`, not 'A<counter>'" % " ".join(u(binds[0].value).split())[:40]
+    cnt = m.group(1)
+    incs = [x for x in ast.walk(sn) if isinstance(x, ast.AugAssign) and u(x.target) == cnt]
+    mine = [x for x in incs if any(x is y for b_ in body for y in ast.walk(b_))]
+    if len(mine) != 1 or " ".join(u(mine[0]).split()) != "%s += 1" % cnt or mine[0] not in body:
+        return False, None, "the counter `%s` is not advanced exactly once, by one, for this array" % cnt
+    others = [x for x in ast.walk(sn) if isinstance(x, ast.Assign) and any(isinstance(t_, ast.Name) and t_.id == cnt for t_ in x.targets)]
+    if len(others) != 1 or others[0] not in sn.body or not isinstance(others[0].value, ast.Constant):
+        return None, None, "counter initialisation not recognised"
+    # the name written into the argument list is this very name
+    col = slot.collections[0] if slot.collections else None
+    apps = [c for x in body for c in ast.walk(x) if isinstance(c, ast.Call) and isinstance(c.func, ast.Attribute) and c.func.attr == "append" and u(c.func.value) == col]
+    if len(apps) != 1 or len(apps[0].args) != 1:
+        return None, None, "the argument text is not appended exactly once"
+    a0 = apps[0].args[0]
+    if slot.key:
+        okn = (norm.canon_text(a0) or "") == "{%s}={%s}" % (slot.key, N)
+    else:
+        okn = isinstance(a0, ast.Name) and a0.id == N
+    if not okn:
+        return False, None, "the argument is written as `%s`, not as the declared name `%s`" % (" ".join(u(a0).split())[:40], N)
+    if not (pos(binds[0]) < pos(stmt_in(body, apps[0])) and pos(binds[0]) < pos(stmt_in(body, call))):
+        return False, None, "`%s` is used before it is bound" % N
+    # where the declaration lines go
+    holder = None
+    st_call = stmt_in(body, call)
+    if isinstance(st_call, ast.Assign) and st_call.value is call and len(st_call.targets) == 1 and isinstance(st_call.targets[0], ast.Name):
+        holder = st_call.targets[0].id
+    after = body[body.index(st_call) + (1 if holder else 0):]
+
+    def is_block(e):
+        return (holder is not None and isinstance(e, ast.Name) and e.id == holder) or e is call
+
+    for x in after:
+        # (a) for i, line in enumerate(B): script.insert(M + i, line)   followed by   M += len(B)
+        if isinstance(x, ast.For) and isinstance(x.iter, ast.Call) and u(x.iter.func) == "enumerate" and len(x.iter.args) == 1 and is_block(x.iter.args[0]) \
+                and isinstance(x.target, ast.Tuple) and len(x.target.elts) == 2 and len(x.body) == 1:
+            i_, l_ = u(x.target.elts[0]), u(x.target.elts[1])
+            t_ = " ".join(u(x.body[0]).split())
+            mm = re.fullmatch(r"%s\.insert\((\w+) \+ %s, %s\)" % (re.escape(script), re.escape(i_), re.escape(l_)), t_) or re.fullmatch(r"%s\.insert\(%s \+ (\w+), %s\)" % (re.escape(script), re.escape(i_), re.escape(l_)), t_)
+            if mm and holder:
+                M = mm.group(1)
+                adv = [y for y in after[after.index(x) + 1:] if isinstance(y, ast.AugAssign) and u(y.target) == M]
+                if len(adv) == 1 and " ".join(u(adv[0]).split()) == "%s += len(%s)" % (M, holder):
+                    return True, M, "inserted line by line at `%s`, which then advances by the number of lines" % M
+                return False, None, "after the lines were inserted at `%s` the insertion point is not advanced by their number" % M
+        # (b) script[M:M] = B   followed by   M += len(B)
+        if isinstance(x, ast.Assign) and len(x.targets) == 1 and isinstance(x.targets[0], ast.Subscript) and u(x.targets[0].value) == script and isinstance(x.targets[0].slice, ast.Slice) \
+                and is_block(x.value) and holder:
+            sl = x.targets[0].slice
+            if isinstance(sl.lower, ast.Name) and isinstance(sl.upper, ast.Name) and sl.lower.id == sl.upper.id and sl.step is None:
+                M = sl.lower.id
+                adv = [y for y in after[after.index(x) + 1:] if isinstance(y, ast.AugAssign) and u(y.target) == M]
+                if len(adv) == 1 and " ".join(u(adv[0]).split()) == "%s += len(%s)" % (M, holder):
+                    return True, M, "spliced in at `%s`, which then advances by the number of lines" % M
+                return False, None, "after the splice at `%s` the insertion point is not advanced by the number of lines" % M
+        # (c) ACC.extend(B): collected, and spliced into the script once after the loop over the operations
+        if isinstance(x, ast.Expr) and isinstance(x.value, ast.Call) and isinstance(x.value.func, ast.Attribute) and x.value.func.attr == "extend" and isinstance(x.value.func.value, ast.Name) \
+                and len(x.value.args) == 1 and is_block(x.value.args[0]):
+            acc = x.value.func.value.id
+            init = [y for y in sn.body if isinstance(y, ast.Assign) and len(y.targets) == 1 and isinstance(y.targets[0], ast.Name) and y.targets[0].id == acc]
+            splice = [y for y in sn.body if isinstance(y, ast.Assign) and len(y.targets) == 1 and isinstance(y.targets[0], ast.Subscript) and u(y.targets[0].value) == script
+                      and isinstance(y.targets[0].slice, ast.Slice) and isinstance(y.value, ast.Name) and y.value.id == acc]
+            if len(init) == 1 and isinstance(init[0].value, ast.List) and not init[0].value.elts and len(splice) == 1:
+                sl = splice[0].targets[0].slice
+                other_uses = [y for y in ast.walk(sn) if isinstance(y, ast.Name) and y.id == acc and isinstance(y.ctx, ast.Load)]
+                extends = [y for y in ast.walk(sn) if isinstance(y, ast.Call) and isinstance(y.func, ast.Attribute) and isinstance(y.func.value, ast.Name) and y.func.value.id == acc]
+                if isinstance(sl.lower, ast.Name) and isinstance(sl.upper, ast.Name) and sl.lower.id == sl.upper.id and sl.step is None and pos(init[0]) < pos(slot.loop) < pos(splice[0]) \
+                        and all(e_.func.attr == "extend" for e_ in extends) and len(other_uses) == len(extends) + 1:
+                    M = sl.lower.id
+                    if any(isinstance(y, ast.AugAssign) and u(y.target) == M and pos(y) > pos(slot.loop) for y in ast.walk(sn)):
+                        return None, None, "insertion point modified after the operations"
+                    return True, M, "collected in `%s` in order of appearance and spliced in once at `%s`" % (acc, M)
+    return None, None, "the lines of the declaration do not reach the script in a recognised way"
+
+
+def stmt_in(body, node):
+    for x in body:
+        if any(y is node for y in ast.walk(x)):
+            return x
+    return body[0]
 
 
 # ------------------------------------------------------------------------------------------------------------ C15.4 tdm variables
@@ -862,8 +1180,57 @@ def c15_4(rep, ix, M):
     arms, chain = isinstance_chain(lp.body, v)
     if arms is None:
         raise Inconclusive("serialize: dispatch over the variable value not recognised")
+    def prune(stmts, binding):
+        """the statements with every conditional that the binding decides replaced by the branch taken"""
+        def atom(node):
+            if isinstance(node, ast.Name) and node.id in binding:
+                return binding[node.id]
+            return AEval.NO
+        out = []
+        for s_ in stmts:
+            if isinstance(s_, ast.If):
+                try:
+                    c = bool(AEval(atom).truth(AEval(atom).ev(s_.test)))
+                except Exception:
+                    c = None
+                if c is not None:
+                    out.extend(prune(s_.body if c else s_.orelse, binding))
+                    continue
+                s2 = copy.copy(s_)
+                s2.body, s2.orelse = prune(s_.body, binding), prune(s_.orelse, binding)
+                out.append(s2)
+            elif isinstance(s_, (ast.For, ast.While)):
+                s2 = copy.copy(s_)
+                s2.body = prune(s_.body, binding)
+                out.append(s2)
+            else:
+                out.append(s_)
+        return out
+
     for kind in ("PyStr", "PyFloat", "PyInt", "PyComplex", "PyBool", "NdArray"):
         body, which = select_arm(arms, v, kind)
+        if kind == "NdArray":
+            # the declaration as a language, per element type (a conditional on the type word is decided by the word)
+            done = 0
+            for ek, form, word in (("NpInt", "F_INT", "int"), ("NpFloat", "F_FLOAT", "float"), ("NpComplex", "F_COMPLEX", "complex")):
+                body_w = prune(list(body), {"var_type": word})
+                apps_w = [n for s_ in body_w for n in ast.walk(s_) if isinstance(n, ast.Call) and isinstance(n.func, ast.Attribute) and n.func.attr == "append" and u(n.func.value) == "script"]
+                if len(apps_w) != 1:
+                    break
+                try:
+                    roles_a = {k: ("key",), "var_type": [("lit", word)], v: ("array", ek)}
+                    roles_a.update(local_callables(body_w, {"var_type": word}))
+                    scope_w = prune(list(lp.body), {"var_type": word})
+                    pieces = TemplateEval(ix, f.mod, fn, roles_a, scope=scope_w).ev(apps_w[0].args[0])
+                except Inconclusive:
+                    break
+                target = L.of_expr("'%s array ' SH_NAME ' =' ( '\\n    ' %s ( ', ' %s )* )+" % (word, form, form))
+                w = included(L.of_pieces(pieces), target)
+                rep.check(w is None, R, ix.site(f, apps_w[0]), "a %s array variable is written `%s`: header '%s array <name> =' and rows of four spaces + elements separated by ', '" % (ek, show_pieces(pieces)[:90], word),
+                          "e.g. %r is not an array declaration" % w, key="tdm|array|" + ek)
+                done += 1
+            if done == 3:
+                continue
         apps = [n for s in body for n in ast.walk(s) if isinstance(n, ast.Call) and isinstance(n.func, ast.Attribute) and n.func.attr == "append" and u(n.func.value) == "script"]
         if len(apps) != 1:
             rep.unknown(R, ix.site(f, chain), "tdm variable of kind %s is written by exactly one script.append" % kind, "found %d" % len(apps))
